@@ -13,6 +13,7 @@ CONSTANTS
   FixShort = TRUE
   FixNilReq = TRUE
   FixBadReq = TRUE
+  FixBadKey = TRUE
 VIEW view
 INVARIANTS TypeOK OwnIndexOnly Correct
 CHECK_DEADLOCK FALSE
